@@ -148,7 +148,8 @@ def _validate_sm_section(seg, problems, probes):
     parks = defaultdict(list)
     bucket_next = Counter()
     bucket_done = Counter()
-    parked_at = {}
+    # Every bucket starts parked at input group 0 (create_split_resources).
+    parked_at = {b: 0 for b in range(NBUCKETS)}
     for (step, tid, kind, a, b, c) in seg:
         if kind == "sm_group_start":
             group_started[a] += 1
